@@ -427,7 +427,7 @@ fn main() {
         codec_case(v, &[], &mut m, &mut rep);
         codec_case(v, &[0xff, 0x00, 0x11], &mut m, &mut rep);
     }
-    for _ in 0..args.n(500, 20000) {
+    for _ in 0..args.n(500, 8000) {
         let v = gen_any_value(&mut rng);
         let junk: Vec<u8> = (0..rng.below(4)).map(|_| rng.next() as u8).collect();
         codec_case(&v, &junk, &mut m, &mut rep);
@@ -453,7 +453,7 @@ fn main() {
     for b in &fixed_bytes {
         bytes_case(b, &mut m, &mut rep);
     }
-    for _ in 0..args.n(400, 20000) {
+    for _ in 0..args.n(400, 8000) {
         let b: Vec<u8> = if rng.chance(1, 2) {
             let mut b = real_write(&gen_any_value(&mut rng));
             if !b.is_empty() {
@@ -553,7 +553,7 @@ fn main() {
     roundtrip(&mut g, "probe-empty-table", &args, &mut rep);
 
     // ---- (C) generated databases ----------------------------------------------------------------
-    let n = args.n(120, 4000);
+    let n = args.n(120, 1500);
     for i in 0..n {
         let mut r = rng.fork();
         let mut g = gen_db(&mut r, if i % 10 == 0 { 130 } else { 25 }, &[]);
